@@ -210,6 +210,15 @@ def gen_project(rng, n_modules, size):
         first = sorted(files)[0]
         files[first] = ("from helpers import run\nimport helpers\n" + files[first] +
                         "\ndef go(zeta):\n    eta = run(zeta, beta=source())\n    return helpers.helper(eta)\ngo(source())\n")
+    elif r < 0.57 and r >= 0.45:
+        # dotted imports (rewritten to flat aliases before parsing), one of them next to a name that already is the flat alias,
+        # and two dotted imports that flatten to the same alias
+        first = sorted(files)[0]
+        files["pkg_d/__init__.py"] = ""
+        files["pkg_d/sub_mod.py"] = "def helper(alpha, beta=2):\n    return alpha\n"
+        files[first] = ("import os.path\nimport pkg_d.sub_mod\n" + ("import pkg_d_sub.mod\n" if rng.random() < 0.5 else "") +
+                        "os_path = 'taken'\n" + files[first] +
+                        "\ndef joined(theta):\n    iota = os.path.join(theta, os_path)\n    return pkg_d.sub_mod.helper(iota)\njoined(source())\n")
     elif r < 0.45:
         # sibling units whose names differ only in case, and names that sort differently with and without case folding
         d = rng.choice(["", "pkg/"])
